@@ -163,6 +163,7 @@ class DrawTable:
         self.keys = None
         self.draws = None
         self.calls = []
+        self.seen_keys = []
 
     def install(self):
         self._orig = pd_random.normal
@@ -177,6 +178,8 @@ class DrawTable:
         match = jnp.all(self.keys == kd[None, :], axis=1)
         row = jnp.sum(jnp.where(match[:, None], self.draws[:, :size], 0.0), axis=0)
         self.calls.append(tuple(shape))
+        if not isinstance(kd, jax.core.Tracer):
+            self.seen_keys.append(np.asarray(kd))
         return row.reshape(shape)
 
 
